@@ -72,8 +72,6 @@ theorem read_spec (ctx ctxO stored : List Tuple) (hperm : ctxO.Perm ctx) (o r : 
   have e : filterTuples ctxO o r [] = ctxO.filter (storeMatch o r "") := by
     unfold filterTuples storeMatch
     congr 1
-    funext t
-    simp
   refine ⟨?_, by simp [CombinedReader.read, e, storeRead]⟩
   simp only [CombinedReader.read, e, storeRead, List.filter_append]
   exact List.perm_append_comm.trans (List.Perm.append_left _ (hperm.filter _))
@@ -161,7 +159,8 @@ theorem matchesAllowed_eq (rs : List Restr) (h : EngineRestrs rs) (t : Tuple) :
       exact ⟨fun ⟨a, b⟩ => ⟨a.symm, b.symm⟩, fun ⟨a, b⟩ => ⟨a.symm, b.symm⟩⟩
     · have : decide (x.rel = userRel t.user) = false := by
         simp only [decide_eq_false_iff_not, h5]; exact fun e => hrel e.symm
-      simp [h5, h6, this]
+      simp [h5, h6]
+      exact fun _ => hrel
   · have hu' : isUserset t.user = false := by simpa using hu
     have hrel : userRel t.user = "" := by simpa [isUserset, userRel] using hu'
     by_cases hw : isTypedWildcard t.user = true
@@ -260,7 +259,7 @@ theorem rswu_spec_partial (ctx ctxO stored : List Tuple) (hperm : ctxO.Perm ctx)
     intro c l
     induction l with
     | nil => rfl
-    | cons x xs ih => by_cases hx : c x = true <;> simp [List.flatMap_cons, List.filter_cons, hx, ih]
+    | cons x xs ih => by_cases hx : c x = true <;> simp [List.flatMap_cons, hx, ih]
   have store_eq : ∀ l : List Tuple, (storeReadStartingWithUser l typ r users none).Perm
       (l.filter (fun t => typeOf t.obj = typ && t.rel = r && users.contains t.user)) := by
     intro l
@@ -593,7 +592,7 @@ example : CombinedReader.read (orderCtx [tA, tB]) [tC] "doc:1" "viewer" "" = [tA
 example : readUserTuple [tA] [tC] "doc:1" "viewer" "group:g#member" = some tC := by decide
 example : CtxSplit.KeyUnique ([tC] ++ [tA, tB]) := by
   intro a ha b hb h1 h2 h3
-  simp only [List.mem_append, List.mem_cons, List.mem_singleton, List.not_mem_nil, or_false] at ha hb
+  simp only [List.mem_append, List.mem_cons, List.not_mem_nil, or_false] at ha hb
   rcases ha with rfl | rfl | rfl <;> rcases hb with rfl | rfl | rfl <;> first | rfl | (revert h1 h2 h3; decide)
 
 /-- a history: a request with contextual tuples misses the cache, a later request without them hits it and
